@@ -150,7 +150,7 @@ def step_cargo(profile):
     if profile == "release":
         cmd.append("--release")
     rc, out, dt = run(cmd, cwd=HARNESS, timeout=3600,
-                      env={"RUSTFLAGS": "--cfg msi_verif -Awarnings"})
+                      env={})
     return rc, out, dt
 
 
